@@ -96,11 +96,29 @@ fn concat_atom(a: &mut Allocator, b: &[u8]) -> NodePtr {
 
 pub fn build_dag(a: &mut Allocator, d: &[DN]) -> Vec<NodePtr> {
     let mut nodes: Vec<NodePtr> = Vec::with_capacity(d.len());
+    // the longest view built so far: a later view whose bytes occur in it becomes a substring of the same
+    // heap atom (many distinct long atoms over one buffer, as the substr operator produces them) — the
+    // source allocator's heap is then much smaller than the sum of its atoms' lengths
+    let mut base: Option<(NodePtr, Vec<u8>)> = None;
     for n in d {
         let p = match n {
             DN::A(b) => a.new_atom(b).unwrap(),
             DN::H(b) => concat_atom(a, b),
-            DN::V(b) => view_atom(a, b),
+            DN::V(b) => {
+                let hit = base.as_ref().and_then(|(n0, bytes)| {
+                    if b.len() >= 8 && bytes.len() >= b.len() { bytes.windows(b.len()).position(|w| w == &b[..]).map(|i| (*n0, i)) } else { None }
+                });
+                match hit {
+                    Some((n0, i)) => a.new_substr(n0, i as u32, (i + b.len()) as u32).unwrap(),
+                    None => {
+                        let v = view_atom(a, b);
+                        if base.as_ref().map(|(_, x)| x.len() < b.len()).unwrap_or(true) {
+                            base = Some((v, b.clone()));
+                        }
+                        v
+                    }
+                }
+            }
             DN::P(l, r) => a.new_pair(nodes[*l], nodes[*r]).unwrap(),
         };
         nodes.push(p);
@@ -658,6 +676,20 @@ pub fn random_dag(rng: &mut Rng, max_nodes: usize, cap: u64) -> Vec<DN> {
         t4.push(base[len - 1]);
         pool.clear();
         pool.extend([base.clone(), t1, t2, t3, t4, base[..len - 1].to_vec(), vec![], vec![1]]);
+    }
+    if rng.chance(1, 8) {
+        // many distinct long views over one buffer (see build_dag): interning must copy each of them
+        let len = 150 + rng.below(200) as usize;
+        let buf = rng.bytes(len);
+        let mut d: Vec<DN> = vec![DN::V(buf.clone())];
+        let k = 6 + rng.below(12) as usize;
+        for i in 0..k {
+            let lo = rng.below(12) as usize;
+            let hi = len - rng.below(12) as usize;
+            d.push(DN::V(buf[lo..hi].to_vec()));
+            d.push(DN::P(d.len() - 1, if i == 0 { 0 } else { d.len() - 2 }));
+        }
+        return d;
     }
     let n = 1 + rng.below(max_nodes as u64) as usize;
     let mut d: Vec<DN> = Vec::new();
